@@ -149,7 +149,7 @@ pub fn judge_cmd(args: &[String]) -> i32 {
     if id == "C12" && s.mode != Mode::Consume {
         s.mode = Mode::Consume;
     }
-    let rf = runner::ReplayFile { props: vec![id.clone()], note: format!("decoded from libFuzzer artifact {}", args[1]), script: s.clone() };
+    let rf = runner::ReplayFile { props: vec![id.clone()], note: format!("decoded from libFuzzer artifact {}", args[1]), tier: None, script: s.clone() };
     let _ = std::fs::write(&args[2], serde_json::to_string_pretty(&rf).unwrap());
     crate::arena::init();
     exec::init_shared();
